@@ -1,7 +1,7 @@
 #!/bin/bash
 # usage: tools/tryseed.sh <patch.diff> <tier> <check id>...   : apply a seeded change to /repo, run checks, undo
 set -u
-patch=$1; tier=$2; shift 2
+patch=$(readlink -f $1); tier=$2; shift 2
 cd /verif
 if ! git -C /repo diff --quiet; then echo "repo has uncommitted changes"; exit 2; fi
 git -C /repo apply "$patch" || { echo "patch does not apply"; exit 2; }
